@@ -8,7 +8,7 @@ from harness import c06_schema as S
 PROP = "C07"
 COQ = dict(imports=["Model.Schema", "Model.Diff", "Spec.C06", "Spec.C07"], in_ty="c07_in", out_ty="c07_out",
            corr="corr_C07", decide="check_C07", inclass="inclass_C07", model="model_C07")
-THEOREMS = ["C07_detects", "C07_nothing_unrelated", "C07_diff_local", "C07_decider_sound", "C07_model_holds"]
+THEOREMS = ["C07_detects", "C07_nothing_unrelated", "C07_diff_local", "C07_nothing_unrelated_refuted", "C07_decider_sound", "C07_model_holds"]
 TRUSTED = [
     "reflect_sqlite / the type catalogue / the abstraction functions of harness/c06_schema.py, as for C06 "
     "(the C06 check compares the reflection table with really reflected tables on every run)",
@@ -18,10 +18,12 @@ ASSUME = [
     "base schema A and mutated schema m(A) well formed (names unique in scope, constraints over existing columns, pk columns NOT NULL; "
     "for the tie: no two constraints of a table over the same column set); m applicable to A",
     "catalogue: table added/removed, column added/removed, nullability flipped, type changed to a different token0 family (needs "
-    "compare_type), index / named unique constraint added, removed, changed (same name and kind, other columns or unique flag); "
-    "server-default changes and foreign keys are outside the modelled universe",
+    "compare_type), server default added/removed/changed to one that differs after the documented normalisation (needs "
+    "compare_server_default), index / named unique constraint added, removed, changed (same name and kind, other columns or unique "
+    "flag), foreign key added (new signature) / removed (its signature disappears)",
+    "server defaults of A and m(A) in the class dflt_ok; outside it 'nothing unrelated' is refuted (C07_nothing_unrelated_refuted)",
 ]
-RULE = ("ALL ordered pairs of catalogue types of different families as a type change on one indexed column, then seeded random base schemas (1-4 tables as for C06) x every kind of the 9-kind mutation catalogue that can be instantiated on "
+RULE = ("ALL ordered pairs of catalogue types of different families as a type change on one indexed column, then seeded random base schemas (1-4 tables as for C06) x every kind of the 12-kind mutation catalogue that can be instantiated on "
         "the base (random instance per kind); each case compares db(A) with m(A) under the 4 compare_type x compare_server_default "
         "settings. every case is non-trivial (a real change is applied); distinct by the encoded (A, m)")
 EXHAUSTIVE = {"quick": False, "thorough": False}
@@ -34,8 +36,7 @@ LEVEL_TEXT = ("Machine-checked theorems for all well-formed base schemas and all
               "comparison contains the corresponding operation kind on the mutated object and every emitted operation is about an "
               "object the mutation touches; plus a general locality theorem for arbitrary schema pairs. The model is compared "
               "exactly with the real comparison on SQLite on every run.")
-LEVEL_NOTE = ("Partial: closed type catalogue, SQLite only; server-default and foreign-key mutations of the property text are outside "
-              "the modelled universe and not claimed.")
+LEVEL_NOTE = ("Partial: closed type catalogue, SQLite only, server defaults of class dflt_ok, foreign keys without options.")
 
 
 def _cases(rnd, nbase):
